@@ -36,7 +36,7 @@ PID = 'C02'
 MANIFEST = {
     'text': 'Coq theorems over an exponential-polynomial-plus-impulses signal algebra (any characteristic-0 field): d/dt of a causal '
             'signal has image s X(s) (L_D), so every law Sigma (a_j + b_j d/dt) x_j = w holds in the time domain iff its image holds in the '
-            's-domain (lcomb_transfer, law_from_sdomain with uniqueness of partial fractions L_injective); time_law_C: I = C(sV - v0) '
+            's-domain off a finite set of s (lcomb_transfer, ode_from_sdomain; uniqueness of partial fractions is PROVED: L_injective_char0); time_law_C: I = C(sV - v0) '
             'gives i = C dv/dt for t > 0 and v(0+) = v0 + impulse/C; time_law_L with mutual terms; continuity_C/L; per-class transfer of '
             'the physical time-domain semantics to the s-domain semantics that C01 proves of the regenerated stamps, and at netlist level '
             '(ode_from_sdomain): the inverse transforms of any ivp/s MNA solution satisfy KCL, every ODE and instantaneous law; '
@@ -46,7 +46,9 @@ MANIFEST = {
     'note': 'Trusted: Coq kernel/vm_compute; specification coq/theory/ExpPoly.v (signals, D, L) and TimeDomCircuit.v (textbook laws); the '
             'sympy-based parsers in tools/impl_timedom.py; translators tools/tr_stamps.py, tools/tr_switch.py. Partial: poles are found by '
             'sympy (oracle, accepted only through the verified certificate check pf_check), so only Gaussian-rational natural frequencies '
-            'are compared inside Coq; symbolic element values are covered by the theorems only.',
+            'are compared inside Coq; symbolic element values are covered by the theorems only. ode_from_mna excludes dc analyses, non-constant '
+            'gains and coupled inductors with initial currents (there the K stamp omits M*i0k: recorded finding). The switch theorems are about '
+            'the specification and the source-extracted comparisons; the loop of convert_IVP is tied by an instrumented run, not translated.',
     'technique': 'Coq proof over an abstract signal algebra + per-class transfer to the C01 stamp semantics + in-Coq correspondence '
                  'evaluation with verified per-case law checking + exact sympy search oracle',
 }
@@ -520,7 +522,7 @@ def expected_mode(case):
 
 
 def gen_cases(rng, tier):
-    n = int(os.environ.get('VERIF_NCASES', 66 if tier == 'quick' else 600))
+    n = int(os.environ.get('VERIF_NCASES', 44 if tier == 'quick' else 600))
     cases = []
     for i in range(n):
         fam = FAMILIES[i % len(FAMILIES)]
@@ -581,6 +583,24 @@ def corpus_cases(rng):
     c.add('C', 'C1', (2, 0), C=1)
     c.add('R', 'R2', (2, 3), R=4)
     c.add('V', 'V2', (3, 0), src={'text': 'step 3', 'nf': {'reg': [[fs(0), 0, g(0), g(3), True]], 'sing': []}, 'causal': True, 'tag': 'step'})
+    out.append(build_case(c, rng))
+    # two identical buffered RLC sections: a repeated complex pair of natural frequencies (F10 end to end)
+    c = Ckt(['corpus', 'cascade', 'cpx', 'repeated_complex'])
+    c.add('V', 'V1', (1, 0), src={'text': 'step 2', 'nf': {'reg': [[fs(0), 0, g(0), g(2), True]], 'sing': []}, 'causal': True, 'tag': 'step'})
+    c.add('R', 'R1', (1, 2), R=2)
+    c.add('L', 'L1', (2, 3), L=1)
+    c.add('C', 'C1', (3, 0), C=F(1, 5))
+    c.add('E', 'E1', (4, 0, 3, 0), gain=1)
+    c.add('R', 'R2', (4, 5), R=2)
+    c.add('L', 'L2', (5, 6), L=1)
+    c.add('C', 'C2', (6, 0), C=F(1, 5))
+    out.append(build_case(c, rng))
+    # initial value problem with a delayed source
+    c = Ckt(['corpus', 'rc', 'delayed_ivp'])
+    c.add('V', 'V1', (1, 0), src={'text': '{5*exp(-(3/2)*(t-2))*u(t-2)}', 'nf': {'reg': [[fs(2), 0, g(F(-3, 2)), g(5), True]], 'sing': []}, 'causal': True, 'tag': 'dexp'})
+    c.add('R', 'R1', (1, 2), R=F(1, 3))
+    c.add('C', 'C1', (2, 0), C=F(1, 3), v0=-2)
+    c.add('R', 'R2', (2, 0), R=5)
     out.append(build_case(c, rng))
     return out
 
@@ -755,16 +775,19 @@ def sw_lines(template, sws, cfg):
 SW_TIMES = [Fraction(0), Fraction(1, 2), Fraction(1), Fraction(3, 2), Fraction(2), Fraction(1, 4), Fraction(3)]
 
 
-def gen_switch_case(rng, nsw, shape, tq=None):
+def gen_switch_case(rng, nsw, shape, tq=None, fixed=None, before_op=None, srck=None):
+    srck = srck or rng.choice(['dc', 'step'])
     A, R1, R2, R3 = rnd(rng, (6, 10, 4, 12)), rnd(rng, (1, 2, 4)), rnd(rng, (1, 2, 4)), rnd(rng, (1, 2))
     kinds = [rng.choice(['no', 'no', 'nc']) for _ in range(nsw)]
     times = [rng.choice(SW_TIMES) for _ in range(nsw)]
     if nsw >= 2 and rng.random() < 0.8:
         while len(set(times)) < 2:
             times[-1] = rng.choice(SW_TIMES)
+    if fixed:
+        kinds, times = [k for k, _ in fixed], [Fraction(a) for _, a in fixed]
     if shape == 'rc':
         Cv = rnd(rng, (1, 2, F(1, 2)))
-        tpl = [['V1', '1', '0', 'dc', val(A)], ['SW', '1', '2'], ['R1', '2', '3', val(R1)], ['C1', '3', '0', val(Cv)]]
+        tpl = [['V1', '1', '0', srck, val(A)], ['SW', '1', '2'], ['R1', '2', '3', val(R1)], ['C1', '3', '0', val(Cv)]]
         if nsw >= 2:
             tpl += [['SW', '3', '4'], ['R2', '4', '0', val(R2)]]
         else:
@@ -774,7 +797,7 @@ def gen_switch_case(rng, nsw, shape, tq=None):
         reactive = ['C1']
     else:
         Lv = rnd(rng, (1, 2, F(1, 2)))
-        tpl = [['V1', '1', '0', 'dc', val(A)], ['R3', '1', '5', val(R3)], ['R1', '5', '2', val(R1)], ['L1', '2', '3', val(Lv)], ['R2', '3', '0', val(R2)], ['SW', '3', '0']]
+        tpl = [['V1', '1', '0', srck, val(A)], ['R3', '1', '5', val(R3)], ['R1', '5', '2', val(R1)], ['L1', '2', '3', val(Lv)], ['R2', '3', '0', val(R2)], ['SW', '3', '0']]
         if nsw >= 2:
             tpl += [['SW', '5', '2']]
         if nsw >= 3:
@@ -800,18 +823,33 @@ def gen_switch_case(rng, nsw, shape, tq=None):
         intervals.append({'netlist': sw_lines(tpl, sws, sw_cfg(sws, passed[0], True)), 'T': fs(passed[0])})
         for a, b in zip(passed, passed[1:]):
             intervals.append({'netlist': sw_lines(tpl, sws, sw_cfg(sws, a, False)), 'T': fs(b - a)})
-    return {'netlist': lines, 'tags': ['switch', shape, 'sw%d' % len(sws), 'passed%d' % len(passed)],
-            'switch': {'t': fs(tq), 'reactive': reactive, 'intervals': intervals,
+    # what the loop of the CURRENT convert_IVP would hand over if its only defects were the recorded ones:
+    # `before` built with the source's comparison, every switch frozen at the first instant, absolute T
+    intervals_code = []
+    if len(passed) >= 2 and before_op is not None:
+        cfg0 = [sw_spec_closed(k, cmp_py(before_op, passed[0], a)) for k, a in sws]
+        intervals_code.append({'netlist': sw_lines(tpl, sws, cfg0), 'T': fs(passed[0])})
+        for b in passed[1:]:
+            intervals_code.append({'netlist': sw_lines(tpl, sws, sw_cfg(sws, passed[0], False)), 'T': fs(b)})
+    return {'netlist': lines, 'tags': ['switch', shape, 'sw%d' % len(sws), 'passed%d' % len(passed), 'src_' + srck],
+            'switch': {'t': fs(tq), 'reactive': reactive, 'intervals': intervals, 'intervals_code': intervals_code,
                        'sws': [[k, fs(a)] for k, a in sws], 'sw_lines': [i for i, l in enumerate(tpl) if l[0] == 'SW']},
             'timeout': 150}
 
 
-def gen_switch_cases(rng, tier):
-    n = int(os.environ.get('VERIF_NSWITCH', 14 if tier == 'quick' else 120))
+def gen_switch_cases(rng, tier, before_op=None):
+    n = int(os.environ.get('VERIF_NSWITCH', 8 if tier == 'quick' else 120))
     out = []
-    # corpus: the two-switch circuit of the documentation style, after both instants
+    if True:
+        # corpus: two switches, query after both instants; a normally-closed switch queried before its instant
+        r0 = random.Random(11)
+        out.append(gen_switch_case(r0, 2, 'rc', tq=Fraction(2), fixed=[('no', 0), ('no', 1)], before_op=before_op, srck='dc'))
+        out.append(gen_switch_case(r0, 2, 'rl', tq=Fraction(3, 2), fixed=[('no', F(1, 2)), ('nc', 1)], before_op=before_op, srck='step'))
+        out.append(gen_switch_case(r0, 1, 'rc', tq=Fraction(0), fixed=[('nc', F(1, 2))], before_op=before_op, srck='dc'))
+        out.append(gen_switch_case(r0, 1, 'rc', tq=Fraction(1), fixed=[('nc', 1)], before_op=before_op, srck='step'))
+        out.append(gen_switch_case(r0, 1, 'rl', tq=Fraction(2), fixed=[('no', F(3, 2))], before_op=before_op, srck='step'))
     for i in range(n):
-        out.append(gen_switch_case(rng, [1, 2, 2, 3][i % 4], ['rc', 'rl'][(i // 4) % 2]))
+        out.append(gen_switch_case(rng, [1, 2, 2, 3][i % 4], ['rc', 'rl'][(i // 4) % 2], before_op=before_op))
     return out
 
 
@@ -887,7 +925,8 @@ def switch_oracle(case, wr, o, tr_sw):
         bad.append((KEY_BEFORE, 'replace_switches_before(%s) gives %s (True = wire), expected %s: a switch activated before t must already be active, one activated later not yet' % (t, o['before'], exp_before)))
     exp_final = sw_cfg(sws, passed[-1], False) if passed else exp_after
     if o['final'] is not None and o['final'] != exp_final:
-        key = KEY_IVP_CFG if len(passed) >= 2 else 'convert_IVP:switch-configuration:passed%d' % len(passed)
+        # recorded defect: every switch is frozen in its state at the first instant
+        key = KEY_IVP_CFG if (len(passed) >= 2 and o['final'] == sw_cfg(sws, passed[0], False)) else 'convert_IVP:switch-configuration:passed%d' % len(passed)
         bad.append((key, 'convert_IVP(%s): switches end up as %s, expected %s (the switches activated at later instants never toggle)' % (t, o['final'], exp_final)))
     # hand-over trace
     exp_trace = []
@@ -896,8 +935,14 @@ def switch_oracle(case, wr, o, tr_sw):
         for a, b in zip(passed, passed[1:]):
             exp_trace.append((sw_cfg(sws, a, False), b - a))
     if o['trace'] != exp_trace and all(c is not None for c, _ in o['trace']):
-        if len(passed) >= 2:
-            key = KEY_IVP_TRACE
+        code_trace = None
+        if len(passed) >= 2 and tr_sw is not None:
+            code_trace = [([sw_spec_closed(k, cmp_py(tr_sw.before, passed[0], a)) for k, a in sws], passed[0])] + \
+                         [(sw_cfg(sws, passed[0], False), b) for b in passed[1:]]
+        if len(passed) >= 2 and o['trace'] == code_trace:
+            key = KEY_IVP_TRACE      # recorded defect: frozen switches, absolute T
+        elif len(passed) >= 2:
+            key = 'convert_IVP:handover:passed%d:unexplained' % len(passed)
         else:
             # one instant: explained by the source-extracted comparison of the `before` branch?
             key = 'convert_IVP:handover:passed%d' % len(passed)
@@ -913,8 +958,11 @@ def switch_oracle(case, wr, o, tr_sw):
             if isinstance(got, dict) or got is None or want is None:
                 continue
             if sorted(map(json.dumps, got)) != sorted(map(json.dumps, want)):
-                if len(passed) >= 2:
-                    key = KEY_IVP_IC
+                code = wr.get('code_ics', {}).get(name)
+                if len(passed) >= 2 and code is not None and sorted(map(json.dumps, got)) == sorted(map(json.dumps, code)):
+                    key = KEY_IVP_IC     # exactly what frozen switches + absolute T produce
+                elif len(passed) >= 2:
+                    key = 'convert_IVP:initial-condition:passed%d:unexplained' % len(passed)
                 elif o['trace'] and tr_sw is not None and o['trace'][0][0] != exp_trace[0][0]:
                     key = KEY_BEFORE
                 else:
@@ -963,8 +1011,7 @@ def classify_circuit(case, wr, codes, oracle_bad, meta):
     # oracle findings (concrete, on Lcapy's own expressions)
     for b in oracle_bad:
         if b.get('undecided'):
-            out.append(('oracle-undecided:' + '+'.join(t for t in tags if t != 'corpus'), 'oracle could not decide a constant exactly: %s' % b['what'], False))
-            continue
+            continue        # a constant outside the exactly decidable class is not evidence of a violation (counted in the histogram)
         li = b.get('law', -1)
         if li >= 0 and laws[li]['k'] == 'L' and laws[li]['ms'] and gen['k_ic'] and 'i(0+)' in b['what']:
             out.append((KEY_KIC, b['what'], True))
@@ -1038,91 +1085,99 @@ def run(tier='quick', replay=None):
                            'a time-domain law is the equality of coefficient maps (normal forms); L_injective_char0 proves that this is the same as equality of the images off a finite set',
                            'switch specification assumes time-invariant sources between switching instants (as convert_IVP documents)']
         texts = {}
-        # 1. translate
-        log('translate')
-        stamps_ok = False
-        try:
-            tr = TS.StampTranslator(os.path.join(core.REPO, 'lcapy', 'mnacpts.py'))
-            tr.translate_all()
-            texts['StampsGen.v'] = TS.emit(tr)
-            w.write('StampsGen.v', texts['StampsGen.v'])
-            ok, out, secs = core.coqc(w.dir, 'StampsGen.v')
-            if ok:
-                stamps_ok = True
-            else:
-                res.failed_obl.append(('StampsGen', 'StampsGen.v', out[-600:]))
+        st = {}
+
+        def prove():
+            # 1. translate
+            log('translate')
+            stamps_ok = False
+            try:
+                tr = TS.StampTranslator(os.path.join(core.REPO, 'lcapy', 'mnacpts.py'))
+                tr.translate_all()
+                texts['StampsGen.v'] = TS.emit(tr)
+                w.write('StampsGen.v', texts['StampsGen.v'])
+                ok, out, secs = core.coqc(w.dir, 'StampsGen.v')
+                if ok:
+                    stamps_ok = True
+                else:
+                    res.failed_obl.append(('StampsGen', 'StampsGen.v', out[-600:]))
+                    res.obligations += 1
+            except (TS.Untranslatable, OSError, SyntaxError) as e:
+                res.failed_obl.append(('translate', 'lcapy/mnacpts.py', str(e)))
                 res.obligations += 1
-        except (TS.Untranslatable, OSError, SyntaxError) as e:
-            res.failed_obl.append(('translate', 'lcapy/mnacpts.py', str(e)))
-            res.obligations += 1
-        tr_sw = None
-        sw_gen_ok = False
-        try:
-            tr_sw = TW.SwitchTranslation(core.REPO)
-            texts['SwitchGen.v'] = tr_sw.coq_defs()
-            w.write('SwitchGen.v', texts['SwitchGen.v'])
-            ok, out, secs = core.coqc(w.dir, 'SwitchGen.v')
-            if ok:
-                sw_gen_ok = True
-            else:
-                res.failed_obl.append(('SwitchGen', 'SwitchGen.v', out[-600:]))
-                res.obligations += 1
-            res.extra['translated_switch'] = {'before': tr_sw.src_before, 'after': tr_sw.src_after, 'arms': tr_sw.arms, 'skipped': tr_sw.skipped}
-        except (TW.Untranslatable, OSError, SyntaxError) as e:
-            res.failed_obl.append(('translate_switch', 'lcapy/mnacpts.py', str(e)))
-            res.obligations += 1
             tr_sw = None
-        # 2. prove
-        log('prove')
-        first = {}
-        if stamps_ok:
+            sw_gen_ok = False
+            try:
+                tr_sw = TW.SwitchTranslation(core.REPO)
+                texts['SwitchGen.v'] = tr_sw.coq_defs()
+                w.write('SwitchGen.v', texts['SwitchGen.v'])
+                ok, out, secs = core.coqc(w.dir, 'SwitchGen.v')
+                if ok:
+                    sw_gen_ok = True
+                else:
+                    res.failed_obl.append(('SwitchGen', 'SwitchGen.v', out[-600:]))
+                    res.obligations += 1
+                res.extra['translated_switch'] = {'before': tr_sw.src_before, 'after': tr_sw.src_after, 'arms': tr_sw.arms, 'skipped': tr_sw.skipped}
+            except (TW.Untranslatable, OSError, SyntaxError) as e:
+                res.failed_obl.append(('translate_switch', 'lcapy/mnacpts.py', str(e)))
+                res.obligations += 1
+                tr_sw = None
+            # 2. prove
+            log('prove')
+            first = {}
+            if stamps_ok:
+                for f in ('C01model.v', 'C01.v'):
+                    texts[f] = open(os.path.join(core.VERIF, 'coq', 'props', f)).read()
+                    w.write(f, texts[f])
+                    first[f] = None
+            texts['C02.v'] = open(os.path.join(core.VERIF, 'coq', 'props', 'C02.v')).read()
+            w.write('C02.v', texts['C02.v'])
+            first['C02.v'] = None
+            if sw_gen_ok:
+                texts['C02_switch.v'] = switch_v(tr_sw)
+                w.write('C02_switch.v', texts['C02_switch.v'])
+                first['C02_switch.v'] = None
+            bad = core.gate_text('generated+props', '\n'.join(texts.values()) + open(os.path.join(core.VERIF, 'coq', 'props', 'C02net.v')).read())
+            bad += core.gate_files([os.path.join(core.COQ_THEORY, f + '.v') for f in ('TimeDom', 'TimeDomInj', 'TimeDomCircuit', 'TimeDomCorr', 'TimeDomSwitch')])
+            if bad:
+                res.failed_obl.append(('gate', 'generated', '; '.join(bad)))
+                res.obligations += 1
+            r1 = core.coqc_many(w.dir, list(first), timeout=900)
+            own = {f: r for f, r in r1.items() if f.startswith('C02')}
+            res.coq_results(w.dir, own, {f: texts[f] for f in own})
             for f in ('C01model.v', 'C01.v'):
-                texts[f] = open(os.path.join(core.VERIF, 'coq', 'props', f)).read()
-                w.write(f, texts[f])
-                first[f] = None
-        texts['C02.v'] = open(os.path.join(core.VERIF, 'coq', 'props', 'C02.v')).read()
-        w.write('C02.v', texts['C02.v'])
-        first['C02.v'] = None
-        if sw_gen_ok:
-            texts['C02_switch.v'] = switch_v(tr_sw)
-            w.write('C02_switch.v', texts['C02_switch.v'])
-            first['C02_switch.v'] = None
-        bad = core.gate_text('generated+props', '\n'.join(texts.values()) + open(os.path.join(core.VERIF, 'coq', 'props', 'C02net.v')).read())
-        bad += core.gate_files([os.path.join(core.COQ_THEORY, f + '.v') for f in ('TimeDom', 'TimeDomInj', 'TimeDomCircuit', 'TimeDomCorr', 'TimeDomSwitch')])
-        if bad:
-            res.failed_obl.append(('gate', 'generated', '; '.join(bad)))
-            res.obligations += 1
-        r1 = core.coqc_many(w.dir, list(first), timeout=900)
-        own = {f: r for f, r in r1.items() if f.startswith('C02')}
-        res.coq_results(w.dir, own, {f: texts[f] for f in own})
-        for f in ('C01model.v', 'C01.v'):
-            if f in r1 and not r1[f][0]:
-                res.failed_obl.append(('C01 prerequisite', f, r1[f][1][-500:]))
-                res.obligations += 1
-        net_ok = False
-        if stamps_ok and all(r1[f][0] for f in ('C01model.v', 'C01.v')):
-            for f in ('C01net.v', 'C02net.v'):
-                texts[f] = open(os.path.join(core.VERIF, 'coq', 'props', f)).read()
-                w.write(f, texts[f])
-            ok, out, secs = core.coqc(w.dir, 'C01net.v', timeout=600)
-            if ok:
-                r2 = core.coqc_many(w.dir, ['C02net.v'], timeout=600)
-                res.coq_results(w.dir, r2, {'C02net.v': texts['C02net.v']})
-                net_ok = r2['C02net.v'][0]
-                r1.update(r2)
+                if f in r1 and not r1[f][0]:
+                    res.failed_obl.append(('C01 prerequisite', f, r1[f][1][-500:]))
+                    res.obligations += 1
+            net_ok = False
+            if stamps_ok and all(r1[f][0] for f in ('C01model.v', 'C01.v')):
+                for f in ('C01net.v', 'C02net.v'):
+                    texts[f] = open(os.path.join(core.VERIF, 'coq', 'props', f)).read()
+                    w.write(f, texts[f])
+                ok, out, secs = core.coqc(w.dir, 'C01net.v', timeout=600)
+                if ok:
+                    r2 = core.coqc_many(w.dir, ['C02net.v'], timeout=600)
+                    res.coq_results(w.dir, r2, {'C02net.v': texts['C02net.v']})
+                    net_ok = r2['C02net.v'][0]
+                    r1.update(r2)
+                else:
+                    res.failed_obl.append(('C01 prerequisite', 'C01net.v', out[-500:]))
+                    res.obligations += 1
             else:
-                res.failed_obl.append(('C01 prerequisite', 'C01net.v', out[-500:]))
+                res.failed_obl.append(('ode_from_mna', 'C02net.v', 'not checked: the regenerated C01 files do not compile'))
                 res.obligations += 1
-        else:
-            res.failed_obl.append(('ode_from_mna', 'C02net.v', 'not checked: the regenerated C01 files do not compile'))
-            res.obligations += 1
-        res.extra['coq_seconds'] = {f: round(r[2], 1) for f, r in r1.items()}
-        # theory obligations are checked by the (self-healing) theory build of this run
-        for f in ('TimeDom.v', 'TimeDomInj.v', 'TimeDomCircuit.v', 'TimeDomCorr.v', 'TimeDomSwitch.v'):
-            names = core.obligations_in(open(os.path.join(core.COQ_THEORY, f)).read())
-            res.obligations += len(names)
-            res.discharged += len(names)
-        before_broken = any(n in ('before_cmp_ok', 'replace_before_ok') for n, _, _ in res.failed_obl)
+            res.extra['coq_seconds'] = {f: round(r[2], 1) for f, r in r1.items()}
+            # theory obligations are checked by the (self-healing) theory build of this run
+            for f in ('TimeDom.v', 'TimeDomInj.v', 'TimeDomCircuit.v', 'TimeDomCorr.v', 'TimeDomSwitch.v'):
+                names = core.obligations_in(open(os.path.join(core.COQ_THEORY, f)).read())
+                res.obligations += len(names)
+                res.discharged += len(names)
+            st.update(tr_sw=tr_sw, sw_gen_ok=sw_gen_ok)
+
+
+        from concurrent.futures import ThreadPoolExecutor
+        pool = ThreadPoolExecutor(max_workers=1)
+        fut = pool.submit(prove)
 
         # 3. correspondence + oracle
         if replay:
@@ -1130,14 +1185,22 @@ def run(tier='quick', replay=None):
             cases = [rc]
         else:
             cases = corpus_cases(rng) + gen_cases(rng, tier)
-            sw_cases = gen_switch_cases(rng, tier)
-            if before_broken:      # targeted search for the broken comparison: instants that differ from the query time
-                for i in range(6):
-                    sw_cases.append(gen_switch_case(rng, 2, ['rc', 'rl'][i % 2]))
+            try:
+                before_op = TW.SwitchTranslation(core.REPO).before
+            except Exception:
+                before_op = None
+            sw_cases = gen_switch_cases(rng, tier, before_op)
+            # targeted at the `before` comparison and the loop of convert_IVP: two instants, query time away from / after them
+            for i in range(4 if tier == 'quick' else 30):
+                sw_cases.append(gen_switch_case(rng, 2, ['rc', 'rl'][i % 2], before_op=before_op))
             cases += sw_cases
         log('run impl on %d cases' % len(cases))
         results = core.run_impl('impl_timedom.py', cases, timeout=1500 if tier == 'quick' else 9000)
         log('impl done')
+        fut.result()
+        pool.shutdown()
+        tr_sw, sw_gen_ok = st.get('tr_sw'), st.get('sw_gen_ok', False)
+        log('proofs done')
         items = []
         metas = {}
         orc = {}
@@ -1172,6 +1235,7 @@ def run(tier='quick', replay=None):
             orc[i] = r.get('oracle', [])
             if 'oracle_error' in r:
                 res.count('oracle_error')
+            res.count('oracle_undecided', sum(1 for b_ in orc[i] if b_.get('undecided')))
             usable_q = len(meta['q_used'])
             nq += usable_q
             res.count('quantities_compared', usable_q)
@@ -1231,10 +1295,10 @@ def run(tier='quick', replay=None):
                 passed = len([a for a in sorted(set(Fraction(a) for _, a in sw['sws'])) if a <= Fraction(sw['t'])])
                 keys_have = set(k for k, _, _ in found)
                 for cd in cds:
-                    if cd == 6000:
-                        key = KEY_IVP_CFG if passed >= 2 else 'convert_IVP:switch-configuration:passed%d' % passed
+                    if cd == 6000:      # the oracle evaluates the same comparison and names the key
+                        key = next((k_ for k_ in keys_have if k_.startswith('convert_IVP') and 'switch-configuration' in k_), 'correspondence:6000:switch')
                     elif cd == 6001:
-                        key = KEY_IVP_TRACE if passed >= 2 else (KEY_BEFORE if KEY_BEFORE in keys_have else 'convert_IVP:handover:passed%d' % passed)
+                        key = next((k_ for k_ in keys_have if (k_.startswith('convert_IVP') and 'handover' in k_) or k_ == KEY_BEFORE), 'correspondence:6001:switch')
                     else:
                         key = 'correspondence:%d:switch' % cd
                     if key not in keys_have:
